@@ -271,6 +271,7 @@ func (kgdb *KVInterfaceGDB) BulkAdd(stream <-chan *gdbi.GraphElement) error {
 			bulkErr = multierror.Append(bulkErr, err)
 		}
 	}
+	kgdb.kvg.ts.Touch(kgdb.graph)
 	return bulkErr.ErrorOrNil()
 }
 
